@@ -1,13 +1,15 @@
-"""C16 (decided part): bit packing of measurement results in the Quantum Engine result formats.
+"""C16: Quantum Engine wire formats.
 
-Claimed: cirq_google.api.v2.results pack_bits / unpack_bits / results_to_proto / results_from_proto,
+Bit part (this file): cirq_google.api.v2.results pack_bits / unpack_bits / results_to_proto / results_from_proto,
 cirq_google.api.v1.programs pack_results / unpack_results and api.v2.ndarrays to_bitarray / from_bitarray, executed on SYMBOLIC bits and bytes.
-Outside (protobuf C objects cannot carry symbolic values): program / sweep / run-context / device
-messages, the typed protobuf containers themselves, wire encoding.
+Message part (checks/C16_msgs.py): program / sweep / run-context / device round trips on the pure-Python protobuf
+backend, whose type checkers are interposed so that symbolic scalars are stored in the real message classes.
 """
 from __future__ import annotations
 
 import sys
+
+from checks import C16_msgs as MSG  # first: selects the pure-Python protobuf backend before protobuf is imported
 
 import numpy as np
 
@@ -18,14 +20,14 @@ from symx.sint import SBool, SInt
 
 PID = 'C16'
 
-SHIMS: list = []  # no generic shims: only the bit model below is installed
+SHIMS: list = list(MSG.SHIMS)  # generic shims for the message part; the bit part only installs the bit model below
 BIT_MODULES = ['cirq_google.api.v2.results', 'cirq_google.api.v1.programs', 'cirq_google.api.v2.ndarrays']
 
 
 def worker_setup():
     from symx import bitmodel
 
-    return bitmodel.install(BIT_MODULES)
+    return list(bitmodel.install(BIT_MODULES)) + list(MSG.worker_setup())
 
 
 # --------------------------------------------------------------------------------------------------
@@ -806,6 +808,7 @@ def obligations(tier):
         ]
 
     obs.extend(mk_bitarray())
+    obs.extend(MSG.obligations(tier))
     return obs
 
 
@@ -815,8 +818,7 @@ LEVEL = (
     'results_from_proto, to_bitarray / from_bitarray (api.v2) and pack_results / unpack_results (api.v1) run on them, with numpy packbits / unpackbits / frombuffer / tobytes '
     'modelled by their documented definitions (validated against the real kernels on every run); z3 decides the byte layout documented in result.proto and the '
     'round-trip laws for ALL bit/byte values, for every bit count up to the bound (every padding remainder mod 8), symbolic repetition count in '
-    'unpack_bits, several sweeps / repeated keys / qubit orders from finite menus. Program, sweep, run-context and device messages are protobuf C '
-    'objects and are OUTSIDE the claim.'
+    'unpack_bits, several sweeps / repeated keys / qubit orders from finite menus. MESSAGE PART (checks/C16_msgs.py): ' + MSG.LEVEL
 )
 
 ASSUMPTIONS = [
@@ -833,6 +835,11 @@ ASSUMPTIONS = [
 
 def main(tier, seed=0, replay=None, only=None, procs=None):
     quick = tier == 'quick'
+    from symx import pbsym
+
+    if pbsym.backend() != 'python':
+        print(f'HARNESS-ERROR: protobuf backend is {pbsym.backend()!r}, not the pure-Python one: symbolic values cannot enter messages')
+        return 2
     if not replay:
         from symx import bitmodel
 
@@ -852,13 +859,11 @@ def main(tier, seed=0, replay=None, only=None, procs=None):
         'BitArray shapes': '1-D up to 31 (quick) / 100 (thorough) elements, 2-D..4-D shapes from a menu (see obligation desc)',
         'param box': [-4, 4],
         'outside': [
-            'program / circuit serialization (CircuitSerializer, arg_func_langs, op/tag (de)serializers): protobuf C messages, no symbolic value can enter',
-            'sweep_to_proto / sweep_from_proto / run_context_to_proto, api.v1 params',
-            'GridDevice.from_proto / to_proto / device specification validation',
             'api.v2.ndarrays typed float/int/complex ndarray messages (tobytes/frombuffer of numeric data); uint8-valued input of to_bitarray (its 0/1 validation error path)',
-            'protobuf typed containers, float32 parameter storage and wire encoding (only touched by concrete validation points / replays)',
+            'result messages: protobuf typed containers and wire encoding (only touched by concrete validation points / replays)',
             'find_measurements (concrete structure only), invert masks, EngineResult',
             'bit counts > 264, more than 33 result bytes per qubit',
         ],
+        'messages': MSG.BOUNDS,
     }
-    return run_check(PID, tier, 'checks.C16', SHIMS, LEVEL, ASSUMPTIONS, bounds, seed=seed, replay=replay, only=only, procs=procs)
+    return run_check(PID, tier, 'checks.C16', SHIMS, LEVEL, ASSUMPTIONS + list(MSG.ASSUMPTIONS), bounds, seed=seed, replay=replay, only=only, procs=procs)
